@@ -9,6 +9,7 @@
    refuse: `exp` in the past, `nbf` or `iat` in the future).  Nothing is assumed of it: the theorems hold for every oracle and
    say that an effect needs the answer [JValid].  An absent `signature` field and an empty string
    are the same thing for the code (strFromMap error → "") and for the model ([] = no token). *)
+From Coq Require Import ZArith.
 From Receptor Require Export Base.Hex.
 Open Scope N_scope.
 
@@ -219,13 +220,46 @@ Definition sig_check (x : sig_case) : bool :=
   Bool.eqb (negb (match effs with [] => true | _ => false end)) (sc_effect x)
   && (reply_class r =? sc_reply x).
 
+(* ---------- the signing side ---------- *)
+
+(* Workceptor.createSignature on the SUBMITTING node (signwork=true on a remote submission, and
+   again for the cancel / release / results it sends later): an RS512 token with the audience =
+   the target node and the expiry = now + the `tokenexpiration` of work-signing; nothing can be
+   signed without a signing key, and then nothing is sent.  Keys are numbered (the harness keeps
+   the bijection to key files); times are seconds relative to the signing. *)
+Record token := mktok { t_key : N; t_aud : bytes; t_exp : Z }.
+
+Definition create_signature (signing_key : option N) (target : bytes) (expiration : Z) : option token :=
+  match signing_key with Some k => Some (mktok k target expiration) | None => None end.
+
+(* golang-jwt on such a token at the target, [elapsed] seconds after it was made *)
+Definition jwt_of (verify_key : N) (node : bytes) (elapsed : Z) (t : token) : jwt_result :=
+  if negb (t_key t =? verify_key) then JBadKey
+  else if (t_exp t <=? elapsed)%Z then JExpired
+  else if negb (beq_bytes (t_aud t) node) then JWrongAud
+  else JValid.
+
+(* a remote submission seen from the target: what startRemoteUnit sends, how the target decides.
+   None: the submitting node could not sign and sends nothing. *)
+Definition remote_submit_decision (signing_key : option N) (expiration elapsed : Z) (signwork : bool)
+           (verify_key : N) (r : registry) (target name : bytes) : option decision :=
+  if signwork then
+    match create_signature signing_key target expiration with
+    | None => None
+    | Some t => Some (authorize (fun _ => jwt_of verify_key target elapsed t) true (classify r name false) Mesh [1])
+    end
+  else Some (authorize (fun _ => JMalformed) true (classify r name false) Mesh []).
+
 (* a submit observed with the SUBMITTED spelling of the work type and, when a unit was created, the
    WorkType its status record shows *)
 Inductive sig_obs :=
 | SCase (x : sig_case)
 | SName (key : bool) (c : conn) (tok_empty : bool) (j : jwt_result) (r : registry)
         (name : bytes) (remote signwork : bool)
-        (effect : bool) (reply : N) (recorded : option bytes).
+        (effect : bool) (reply : N) (recorded : option bytes)
+| SRemote (signing_key : option N) (expiration_positive signwork : bool) (verify_key : N) (r : registry)
+          (target name : bytes) (created_at_target : bool).
+   (* a signed (or unsigned) remote submission end to end: was a unit of that name created at the target *)
 
 Definition sig_obs_check (o : sig_obs) : bool :=
   match o with
@@ -240,4 +274,10 @@ Definition sig_obs_check (o : sig_obs) : bool :=
        | _ :: _, Some t => beq_bytes t (recorded_type name remote)
        | _, _ => false
        end
+  | SRemote sk pos signwork vk r target name created =>
+    let expiration := if pos then 1800%Z else (-60)%Z in
+    match remote_submit_decision sk expiration 1%Z signwork vk r target name with
+    | Some Allow => Bool.eqb created (match classify r name false with WUnknown => false | _ => true end)
+    | _ => negb created
+    end
   end.
